@@ -157,8 +157,13 @@ struct CurveOps {
       }
       case 3: {
         const auto c = smooth::dubins_curve<3>(*st->target);
-        const auto s = smooth::reparameterize_spline(c, -vmax, vmax, -amax, amax, 0.5, 0.5, 20);
-        put_curve(out, s);
+        put_curve(out, c);
+        // a target equal to the start gives an EMPTY curve; reparameterising that is outside the function's
+        // domain (the library asserts T > 0 on the segments it would build)
+        if (c.size() > 0 && c.t_max() > 0) {
+          const auto s = smooth::reparameterize_spline(c, -vmax, vmax, -amax, amax, 0.5, 0.5, 20);
+          put_curve(out, s);
+        }
         break;
       }
       default: out.tag("?"); break;
